@@ -62,6 +62,7 @@ type FuncContract struct {
 	AtCalls        []AtCall
 	Retains        []string
 	AllowAlias     string
+	Writes         []string
 }
 
 type AtCall struct {
@@ -93,7 +94,7 @@ type AxiomDef struct {
 	Lemma   bool // must be proved (obligation) before being assumed by others
 	Props   []string
 	Hints   []string
-	Trigger []Expr
+	Trigger [][]Expr
 }
 
 type Contracts struct {
@@ -113,7 +114,7 @@ func NewContracts() *Contracts {
 var clauseKeywords = map[string]bool{
 	"props": true, "requires": true, "ensures": true, "assigns": true, "pure": true, "trusted": true,
 	"assumed": true, "terminates": true, "loop": true, "measure": true, "maypanic": true, "note": true,
-	"let": true, "model": true, "recursion_assumed": true, "assume_nopanic": true, "defines": true, "at_call": true, "retains": true, "allow_alias": true,
+	"let": true, "model": true, "recursion_assumed": true, "assume_nopanic": true, "defines": true, "at_call": true, "retains": true, "allow_alias": true, "writes": true,
 }
 
 // normaliseFuncKey turns "(*Cursor).Pos" into "(*pkgpath.Cursor).Pos" and "Name" into "pkgpath.Name".
@@ -352,11 +353,16 @@ func (cs *Contracts) LoadFile(path, pkgPath string) error {
 			if curAx == nil {
 				return fail(fmt.Errorf("trigger outside axiom/lemma"))
 			}
-			e, err := ParseExpr(rest)
-			if err != nil {
-				return fail(err)
+			// "trigger a ;; b" is one multi-pattern; separate trigger lines are alternatives
+			var multi []Expr
+			for _, part := range strings.Split(rest, ";;") {
+				e, err := ParseExpr(strings.TrimSpace(part))
+				if err != nil {
+					return fail(err)
+				}
+				multi = append(multi, e)
 			}
-			curAx.Trigger = append(curAx.Trigger, e)
+			curAx.Trigger = append(curAx.Trigger, multi)
 		default:
 			if !clauseKeywords[w] {
 				return fail(fmt.Errorf("unknown keyword %q", w))
@@ -437,6 +443,10 @@ func (cs *Contracts) LoadFile(path, pkgPath string) error {
 					return fail(err)
 				}
 				cur.AtCalls = append(cur.AtCalls, AtCall{Match: strings.TrimSuffix(f[0], ":"), C: c})
+			case "writes":
+				// the callee overwrites the contents of this slice parameter (same length): in ensures the name
+				// denotes the new contents, old(name) the former ones
+				cur.Writes = append(cur.Writes, strings.Fields(rest)...)
 			case "retains":
 				// the function keeps a reference to this slice parameter (stores it without copying)
 				cur.Retains = append(cur.Retains, strings.Fields(rest)...)
